@@ -61,3 +61,9 @@ pub assume_specification[ char::encode_utf8 ](c: char, dst: &mut [u8]) -> (r: &m
     requires old(dst)@.len() >= 4,
     ensures str_bytes(r@) == utf8_of(c), 1 <= utf8_of(c).len() <= 4;
 pub assume_specification[ f64::is_finite ](f: f64) -> bool;
+pub assume_specification[ String::len ](s: &String) -> (r: usize)
+    ensures r == str_bytes(s@).len();
+
+// UTF-8 is injective: a string is determined by its bytes
+pub uninterp spec fn text_of(b: Seq<u8>) -> Seq<char>;
+pub broadcast axiom fn axiom_text_of(s: Seq<char>) ensures #[trigger] text_of(str_bytes(s)) == s;
